@@ -165,7 +165,7 @@ pub fn check(sc: &Scenario, ex: &mut Exec) -> (Verdict, Option<String>) {
         return (Verdict::Violations(violations), Some(coarse_shape(sc, "static_leak")));
     }
     let own = owners::owners(sc);
-    let units = c01::pick_units(sc, &own, 3);
+    let units = c01::pick_units(sc, &own, if sc.depth > 0 { 8 } else { 3 });
     let dp_sql = pipeline::render(&compiled.dp);
     let tabs: Vec<&TableSpec> = sc.tables.iter().chain(sc.synthetic.iter()).collect();
     let mut eng = match ex.engine(&tabs) {
